@@ -1,6 +1,7 @@
 package run
 
 import (
+	"time"
 	"encoding/json"
 	"fmt"
 	"os"
@@ -95,5 +96,16 @@ func List() {
 				}
 			}
 		}
+	}
+}
+
+// EnumPartDebug runs one part of a parallel enumeration in this process.
+func EnumPartDebug(prop, tier string, part, parts int) {
+	c := Registry[prop]
+	t0 := time.Now()
+	r := c.EnumPar(tier, part, parts, 0, time.Now().Add(time.Hour), func(int, string) {})
+	fmt.Printf("evaluations=%d distinct=%d found=%d exhaustive=%v in %v\n", r.Evaluations, r.Distinct, len(r.Found), r.Exhaustive, time.Since(t0))
+	for _, f := range r.Found {
+		fmt.Printf("  %s: %s\n", f.Kind, f.Msg)
 	}
 }
